@@ -429,8 +429,34 @@ def typed_schedule(plain, rng, np=None, series=True):
             out[k] = np.array(row, dtype=float)
         elif c < 0.5:
             out[k] = tuple(row)
+        elif c < 0.54 and series:
+            import collections
+            out[k] = collections.deque(row)
+        elif c < 0.58 and series:
+            import array
+            out[k] = array.array("d", [float(v) for v in row])
         else:
             out[k] = row
+    if series and out and rng.random() < 0.12:
+        # the mapping itself need not be a plain dict: a defaultdict (which GROWS when a missing key is read), an OrderedDict,
+        # a read-only proxy, a ChainMap of two partial tables, a UserDict
+        import collections
+        import types
+        L = len(next(iter(out.values())))
+        kind = rng.choice(["defaultdict", "ordered", "proxy", "chain", "userdict"])
+        if kind == "defaultdict":
+            dd = collections.defaultdict(lambda: [0.0] * L)
+            dd.update(out)
+            out = dd
+        elif kind == "ordered":
+            out = collections.OrderedDict(reversed(list(out.items())))
+        elif kind == "proxy":
+            out = types.MappingProxyType(dict(out))
+        elif kind == "chain":
+            items = list(out.items())
+            out = collections.ChainMap(dict(items[: len(items) // 2]), dict(items[len(items) // 2:]))
+        else:
+            out = collections.UserDict(out)
     return out
 
 
